@@ -4,6 +4,8 @@
 pub mod kx;
 pub mod stubs;
 pub mod ans;
+pub mod range;
+pub mod backends;
 /// Pipeline self-test harnesses (not registered for any property).
 pub mod selftest {
     use crate::kx::*;
